@@ -8,7 +8,7 @@ IMPORTS = ("From Coq Require Import List ZArith.\nImport ListNotations.\n"
 def cprim(p):
     if isinstance(p, list):
         return "(PF %d%%nat)" % p[1]
-    return {"add": "PAdd", "sub": "PSub", "mul": "PMul", "neg": "PNeg", "sign": "PSign",
+    return {"add": "PAdd", "sub": "PSub", "mul": "PMul", "rmul": "PMul", "neg": "PNeg", "sign": "PSign",
             "novjp": "PNoVjp", "nojvp": "PNoJvp"}[p]
 
 
@@ -78,7 +78,7 @@ def gen_body(rng, depth, nvars):
             return ["var", 0 if rng.random() < 0.6 else rng.randrange(nvars)]
         return ["const", rng.choice([-2, -1, 1, 2, 3])]
     if r < 0.6:
-        return ["app2", rng.choice(["add", "sub", "mul", "mul"]), gen_body(rng, depth - 1, nvars),
+        return ["app2", rng.choice(["add", "sub", "mul", "rmul"]), gen_body(rng, depth - 1, nvars),
                 gen_body(rng, depth - 1, nvars)]
     if r < 0.9:
         return ["app1", rng.choice(["neg", ["F", rng.randint(0, 4)], ["F", rng.randint(1, 5)]]),
@@ -108,3 +108,29 @@ def run_cases(res, tag, mode_cfg, term_of, checker, key_of, nontrivial, sample_o
     bad = sorted([c for c, k in zip(cases, codes) if k == 2], key=key)
     tie = sorted([c for c, k in zip(cases, codes) if k == 1], key=key)
     return bad, tie, None, out
+
+
+def closure_family():
+    """Systematic closure patterns: an inner operator (variable y = Var 0) inside an outer one
+    (x = Var 1); one binary primitive applied to every ordered pair of arguments drawn from
+    {y, x, y*x, x*y, y+x, F2(y), const}, under all four mode pairings, plus a depth-3 variant."""
+    y, x = ["var", 0], ["var", 1]
+    atoms = [y, x, ["app2", "mul", y, x], ["app2", "mul", x, y], ["app2", "add", y, x],
+             ["app1", ["F", 2], y], ["const", 2]]
+    progs = []
+    for p in ("add", "sub", "mul", "rmul"):
+        for a in atoms:
+            for b in atoms:
+                body = ["app2", p, a, b]
+                for o in ("grad", "deriv"):
+                    for i in ("grad", "deriv"):
+                        progs.append([o, ["app2", "mul", ["var", 0], [i, body, ["const", 3]]], ["const", 2]])
+    # depth 3: the innermost body sees two enclosing variables
+    z = ["var", 2]
+    for p in ("mul", "rmul"):
+        for a, b in ((y, ["app2", "mul", y, z]), (["app2", "mul", y, x], z), (y, ["app2", "mul", x, z])):
+            body = ["app2", p, a, b]
+            for m in (("grad", "grad", "deriv"), ("deriv", "grad", "grad"), ("grad", "deriv", "grad"), ("deriv", "deriv", "deriv")):
+                progs.append([m[0], ["app2", "add", ["var", 0], [m[1], ["app2", "mul", ["var", 0], [m[2], body, ["const", 3]]],
+                                                                  ["const", 2]]], ["const", 1]])
+    return progs
